@@ -84,6 +84,9 @@ def _convert_value(value: Any) -> Any:
         return [_convert_value(item) for item in value.items]
     elif isinstance(value, InlineMap):
         return {k: _convert_value(v) for k, v in value.pairs.items()}
+    elif isinstance(value, dict):
+        # GH#287 P3: nested META blocks are plain dicts whose values may be AST types
+        return {k: _convert_value(v) for k, v in value.items()}
     elif isinstance(value, HolographicValue):
         # Export the pattern as its source text (I1); the AST object itself is not
         # JSON/YAML serializable and would make json.dumps raise out of the tool.
@@ -140,6 +143,9 @@ def _format_markdown_value(value: Any) -> str:
         # Format inline map as key: value pairs
         pairs = [f"{k}: {_format_markdown_value(v)}" for k, v in value.pairs.items()]
         return ", ".join(pairs)
+    elif isinstance(value, dict):
+        # nested META block: format like an inline map (no Python repr of AST values)
+        return ", ".join(f"{k}: {_format_markdown_value(v)}" for k, v in value.items())
     elif isinstance(value, HolographicValue):
         # I3: source text, not the dataclass repr (which embeds a memory address)
         return value.raw_pattern
